@@ -174,20 +174,31 @@ def gen_iface(rng, idx):
         fallible_setter = rng.random() < 0.35
         async_getter = rng.random() < 0.4
         init_seed = rng.getrandbits(63)
-        fields.append((f"p_{fn}", t, init_seed))
+        # a third of the properties live behind a mutex and have `&self` setters (interior mutability)
+        shared = rng.random() < 0.33
+        if shared:
+            # (a `&self` setter returning fdo::Result does not compile with this version of the macro)
+            fallible_setter = False
+        if shared:
+            fields.append((f"p_{fn}", f"std::sync::Mutex<{t}>", init_seed))
+        else:
+            fields.append((f"p_{fn}", t, init_seed))
         if access in ("read", "readwrite"):
             body.append(docs(rng))
             attr = f"property(emits_changed_signal = {rs_str(emits)})" if emits != "true" or rng.random() < 0.5 else "property"
             body.append(f"    #[zbus({attr}, name = {rs_str(pname)})]\n")
-            body.append(f"    {'async ' if async_getter else ''}fn {fn}(&self) -> {t} {{\n        self.p_{fn}.clone()\n    }}\n\n")
+            read_expr = f"self.p_{fn}.lock().unwrap().clone()" if shared else f"self.p_{fn}.clone()"
+            body.append(f"    {'async ' if async_getter else ''}fn {fn}(&self) -> {t} {{\n        {read_expr}\n    }}\n\n")
         if access in ("write", "readwrite"):
             body.append(f"    #[zbus(property, name = {rs_str(pname)})]\n")
+            recv = "&self" if shared else "&mut self"
+            store = f"*self.p_{fn}.lock().unwrap() = v;" if shared else f"self.p_{fn} = v;"
             if fallible_setter:
-                body.append(f"    fn set_{fn}(&mut self, v: {t}) -> zbus::fdo::Result<()> {{\n"
+                body.append(f"    fn set_{fn}({recv}, v: {t}) -> zbus::fdo::Result<()> {{\n"
                             f"        if v.digest() % 5 == 0 {{ return Err(zbus::fdo::Error::InvalidArgs(\"refused\".into())); }}\n"
-                            f"        self.p_{fn} = v;\n        Ok(())\n    }}\n\n")
+                            f"        {store}\n        Ok(())\n    }}\n\n")
             else:
-                body.append(f"    fn set_{fn}(&mut self, v: {t}) {{\n        self.p_{fn} = v;\n    }}\n\n")
+                body.append(f"    fn set_{fn}({recv}, v: {t}) {{\n        {store}\n    }}\n\n")
         px_props.append({"fn": fn, "name": pname, "sig": s, "ty": t, "read": access != "write", "write": access != "read", "emits": emits,
                          "fallible_setter": fallible_setter and access != "read", "init_seed": init_seed})
         meta_props.append(
@@ -215,7 +226,7 @@ def gen_iface(rng, idx):
         meta_signals.append(f"SignalMeta {{ name: {rs_str(sname)}, args: &[{', '.join(rs_str(s) for s, _ in args)}], emitter: {rs_str(emitter)} }}")
 
     out.append(f"pub struct {struct} {{\n    pub instance: u32,\n    pub calls: u64,\n" + "".join(f"    pub {f}: {t},\n" for f, t, _ in fields) + "}\n\n")
-    out.append(f"impl {struct} {{\n    pub fn new(instance: u32) -> Self {{\n        {struct} {{ instance, calls: 0, " + ", ".join(f"{f}: Gen::from_seed({seed}u64)" for f, _, seed in fields) + " }\n    }\n}\n\n")
+    out.append(f"impl {struct} {{\n    pub fn new(instance: u32) -> Self {{\n        {struct} {{ instance, calls: 0, " + ", ".join((f"{f}: std::sync::Mutex::new(Gen::from_seed({seed}u64))" if t.startswith("std::sync::Mutex<") else f"{f}: Gen::from_seed({seed}u64)") for f, t, seed in fields) + " }\n    }\n}\n\n")
     out.append(docs(rng, ""))
     attrs = f"name = {rs_str(name)}" + ("" if spawn else ", spawn = false") + ', proxy(gen_blocking = true, default_path = "/g", default_service = "t.gen")'
     out.append(f"#[zbus::interface({attrs})]\nimpl {struct} {{\n" + "".join(body) + "}\n\n")
